@@ -180,7 +180,7 @@ package disk
 //@ func (c *diskCache) GetValidatedActionResult(ctx context.Context, hash string) (*pb.ActionResult, []byte, error)
 //@   serves C06 C11 C14
 //@   requires wfCache(c) && !muHeld && held >= 0 && ctx != nil && c.accessLogger != nil
-//@   modifies lruState(c.lru), held, resN, hitN, hitSize, adopted, tmpOpen, tmpName, tmpRandom, tfc.idum, visited, ioState()
+//@   modifies lruState(c.lru), held, resN, hitN, hitSize, adopted, tmpOpen, tmpName, tmpRandom, tfc.idum, visited, ioState(), sendN, sentRefs
 //@   ensures[C07] unlocked: !muHeld
 //@   ensures[C03] noleak: held == old(held)
 //@   ensures[C11] validated: result0 != nil ==> result2 == nil
